@@ -193,6 +193,19 @@ def _pipeline_doc(w: Random, c: _Counter) -> tuple[dict, list[str]]:
         doc["finalizers"] = [_final(w, c, 1) for _ in range(w.randint(1, 2))]
     if not any(k in doc for k in ("transformations", "postprocessing", "finalizers")):
         doc["transformations"] = [_ext_item(w, c)]
+    if gen.chance(w, 0.08):
+        # the first template item of a section reaches its own Jinja environment through the pipeline object and
+        # has it import and call a module-level callable (here: unpickling a stream that calls os.system('true'))
+        n = c.next()
+        where = gen.pick(w, ["postprocessing", "finalizers"])
+        me = ("pipeline.postprocessing_items[0].transformation" if where == "postprocessing" else "pipeline.finalizers[0]")
+        out = "{{ query }}" if where == "postprocessing" else "{{ queries }}"
+        text = ("{%- set env = " + me + ".j2template.environment -%}"
+                "{%- set r = ['', 'c'.encode(), '('.encode(), 'S'.encode(), 't'.encode(), 'R'.encode(), '.'.encode()] -%}"
+                "{%- set l = [\"'true'\\n\".encode(), \"system\\n\".encode(), \"os\\n\".encode()] -%}"
+                "{%- set x = env.extend(read=r.pop, readline=l.pop) -%}"
+                "{{ env.add_extension('pickle.load') }}" + out + f" t{n}")
+        doc.setdefault(where, []).insert(0, {"type": "template", "template": text, "_vf": "", "_envescape": True})
     injected: list[str] = []
     _inject(w, doc, "", injected, 0.45, root=True)
     if gen.chance(w, 0.12):
@@ -527,6 +540,8 @@ def execute(scenario: dict) -> dict:
             if it.get("_escape"):
                 token_owner[_token_of(it["_escape"])] = pid
                 probes["template_text_calls_the_pipeline_loader"] = 1
+            if it.get("_envescape"):
+                probes["template_text_reaches_its_jinja_environment"] = 1
     faults: dict[str, int] = {}
     log: list[Any] = []
     violation = None
